@@ -451,7 +451,11 @@ func (s *Sess) QueryCheck(f ecs.Filter, spec *FSpec, mode int) {
 
 // CheckCache compares every registered filter with its original (C07 shadow comparator).
 func (s *Sess) CheckCache() {
-	for slot, r := range s.regs {
+	// deterministic order, rotating, so that the registration looked up last varies from op to op
+	slots := sortedSlots(s.regs)
+	for k := range slots {
+		slot := slots[(k+s.step)%len(slots)]
+		r := s.regs[slot]
 		a := s.iterate(&r.cached)
 		b := s.iterate(r.orig)
 		if !sameEntSet(a, b) {
